@@ -85,7 +85,7 @@ def decisions(ctx: Ctx, fi: FunctionInfo, opaque: Optional[Callable[[ast.AST], b
     pe = PathEnumerator(cfg, atoms=True, follow_exc=False, atom_canon=lambda e: canon_atom(fi, e, stop), opaque_ok=opaque, stop_at_raise=True, nonempty=nonempty, limit=limit)
     out = []
     for r in pe.paths():
-        assign = {k[1:]: v for k, v in r.env.items() if k.startswith("@")}
+        assign = {k[1:]: v for k, v in r.env.items() if k.startswith("#")}
         out.append(Decision(assign, r.nodes, r.end, cfg))
     return out
 
